@@ -475,6 +475,37 @@ func famMeta(sh *Shards, n int, stats map[string]int) error {
 	emit("meta/repeated/good-then-bad", stream(2, 1, [][]byte{vb0, vbBad}, tails[1]))
 	emit("meta/repeated/bad-pal-good", stream(3, 1, [][]byte{vbBad, pal0, vb0}, tails[1]))
 	emit("meta/repeated/pal-short-then-pal", stream(2, 1, [][]byte{palChunk(3, 3, colorGen(3, 0), -1, 1), pal0}, tails[1]))
+	// chunks whose declared length is tiny (0..5) while the MID is written in 1, 2 or 4 bytes (the length then cannot
+	// even hold the MID), for both kinds of chunk
+	for _, mw := range []int{1, 2, 4} {
+		for ln := 0; ln <= 5; ln++ {
+			pb := append(natBytes(uint32(ln), 1), natBytes(1, mw)...)
+			pb = append(pb, 0x00, 0x00, 0x00, 0x00, 0x00, 0x00)
+			emit(fmt.Sprintf("meta/tiny/pal/mid%d/len%d", mw, ln), stream(1, 1, [][]byte{pb}, nil))
+			vbb := append(natBytes(uint32(ln), 1), natBytes(0, mw)...)
+			vbb = append(vbb, 0x80, 0x80, 0x82, 0x82)
+			emit(fmt.Sprintf("meta/tiny/vb/mid%d/len%d", mw, ln), stream(1, 1, [][]byte{vbb}, tails[1]))
+		}
+	}
+	// a palette whose count byte promises more colours than the chunk holds, with a declared length that matches the
+	// shortened content (every format, counts up to the maximum)
+	for format := 0; format < 4; format++ {
+		for _, cnt := range []int{2, 17, 63, 64} {
+			for _, have := range []int{0, 1, cnt / 2, cnt - 1} {
+				body := []byte{0x02, byte(format<<6 | (cnt - 1))}
+				for i := 0; i < have; i++ {
+					body = append(body, colorGen(format, 0)(i)...)
+				}
+				w := 1
+				if len(body) >= 128 {
+					w = 2
+				}
+				ch := append(natBytes(uint32(len(body)), w), body...)
+				emit(fmt.Sprintf("meta/pal%d/promised%d/have%d", format, cnt, have), stream(1, 1, [][]byte{ch}, tails[1]))
+				emit(fmt.Sprintf("meta/pal%d/promised%d/have%d/eof", format, cnt, have), stream(1, 1, [][]byte{ch}, nil)) // the input ends with the chunk
+			}
+		}
+	}
 	// the largest palette chunk (64 entries of 4 bytes) with the MID in each width, alone and after a viewBox
 	for _, mw := range []int{1, 2, 4} {
 		big := palChunk(3, 64, colorGen(3, 0), 0, mw)
